@@ -14,7 +14,7 @@ RESERVED = {
     "none", "None", "contains", "undefined", "missing",
 }
 
-_SHORT_RE = re.compile("^[A-Za-z_\\u0080-\\ud7ff\\ue000-\\U0010ffff][A-Za-z0-9_\\u0080-\\ud7ff\\ue000-\\U0010ffff]*$")
+_SHORT_RE = re.compile("[A-Za-z_\\u0080-\\ud7ff\\ue000-\\U0010ffff][A-Za-z0-9_\\u0080-\\ud7ff\\ue000-\\U0010ffff]*")
 
 DEFAULT_TOKENS = {"root": "$", "self": "@", "key": "#", "ctx": "_", "keys": "~", "fake": "^",
                   "union": "|", "inter": "&"}
@@ -23,7 +23,7 @@ BLANKS = [" ", " ", " ", "\t", "\n", "\r", "  "]
 
 
 def shorthand_ok(name: str) -> bool:
-    return bool(_SHORT_RE.match(name))
+    return bool(_SHORT_RE.fullmatch(name))  # fullmatch: `$` would accept a trailing newline
 
 
 class Renderer:
@@ -140,7 +140,7 @@ class Renderer:
     def selector(self, sel) -> str:
         k = sel[0]
         if k == "n":
-            if self.ext["bare_names"] and re.match(r"^[A-Za-z][A-Za-z0-9_]*$", sel[1]) \
+            if self.ext["bare_names"] and re.fullmatch(r"[A-Za-z][A-Za-z0-9_]*", sel[1]) \
                     and sel[1] not in RESERVED and self.p(0.5):
                 self.features.add("bare-name")
                 return sel[1]
